@@ -75,7 +75,7 @@ def work(chunk):
     packs = []
     for y in years:
         ages = G['tab'][y]['ages']
-        packs.append(work_year((y, g, codes, [ages[0], 30, 35, 52.5, 70, ages[-1], ages[-1] + 5])))
+        packs.append(work_year((y, g, codes, [ages[0], 30, 35, 41.25, 52.5, 67.75, 70, ages[-1], ages[-1] + 5])))
     out = packs[0]
     for p in packs[1:]:
         out['n'] += p['n']; out['nontrivial'] += p['nontrivial']; out['nviol'] += p['nviol']
@@ -187,7 +187,7 @@ def run(tier):
     c = rep.coverage
     c['distances_per_table'] = nd
     c['rule'] = ('bare whole-metre codes%s and road spellings 0.1K..400K, 0.1M..249M%s, skipping codes that are themselves tabulated; x gender x ages '
-                 '{first column, 30, 35, 52.5, 70, last, last+5} x both years; non-trivial = answers inside the hull of the bracketing rows'
+                 '{first column, 30, 35, 41.25, 52.5, 67.75, 70, last, last+5} x both years; non-trivial = answers inside the hull of the bracketing rows'
                  % (' 20..400000' if tier == 'thorough' else ' (every metre to 30 km, +-60 m of every tabulated distance, +-5 m of every mile multiple, 1 km steps to 400 km)',
                     '' if tier == 'thorough' else ' (every fifth)'))
     c['exhaustive'] = True
